@@ -18,8 +18,9 @@ package sfh
 // comparisons are byte-exact.
 //
 // "fatal": the Go runtime died (stack overflow cannot be recovered). Values for which
-// that is possible (recursive type terms; an inline interface field inside the value of
-// another inline interface field) are folded in a child process.
+// that was possible before the fixes of branch fold-fixes (recursive type terms; an inline
+// interface field inside the value of another inline interface field) are still folded in
+// a child process, so that a regression shows up as a verdict instead of killing the sweep.
 
 import (
 	"bytes"
